@@ -83,12 +83,13 @@ def clamp_tanh(x):
 
 
 def clamp_sigmoid(x):
-    if x <= -8:
-        y = 0.0
-    elif x >= 8:
-        y = 1.0
-    else:
+    # evaluated without overflow for any x; the tails are not cut off at |x| = 8, where the function still differs
+    # from 0 and 1 by 3.4e-4 (more than half a quantisation step for output scales other than 1/256 would allow)
+    if x >= 0:
         y = 1 / (1 + math.exp(-x))
+    else:
+        e = math.exp(x)
+        y = e / (1 + e)
     return y
 
 
